@@ -177,4 +177,78 @@ theorem readTokenSeparator_seps (seps : List Byte) (hs : Seps seps) (l : List By
   · exact hc
   · exact h47
 
+/-! ### `CheckRemainingInput` (repaired: skips comments) over every layout -/
+
+theorem NoClose.cons0 {body : List Byte} (h : NoClose body) (p : Byte) (hp : p ≠ 42) : NoClose (p :: body) := by
+  cases body with
+  | nil => trivial
+  | cons a t => exact ⟨fun ⟨h1, _⟩ => hp h1, h⟩
+
+/-- `commentBody` of `P21.Lex` (the scan of the repaired `SkipTokenSeparators`) ends at the first `*/` -/
+theorem commentBody_spec (body : List Byte) (p : Byte) (hb : NoClose (p :: body)) (l rest : List Byte) :
+    commentBody p l (body ++ 42 :: 47 :: rest) = some (47 :: 42 :: (body.reverse ++ l), rest) := by
+  induction body generalizing p l with
+  | nil =>
+    have h1 : (p == 42 && (42 : Byte) == 47) = false := by simp
+    simp [commentBody, h1]
+  | cons a t ih =>
+    have hpa : (p == 42 && a == 47) = false := by
+      have := hb.1
+      cases h1 : p == 42 <;> cases h2 : a == 47 <;> simp_all
+    simp only [List.cons_append, commentBody, hpa, Bool.false_eq_true, if_false]
+    rw [ih a hb.2]
+    simp
+
+theorem skipSeps_seps (seps : List Byte) (hs : Seps seps) :
+    ∀ (n : Nat) (l : List Byte) (d : Byte) (rest : List Byte), seps.length + 1 ≤ n → isSpace d = false → d ≠ 47 →
+      skipSeps n l (seps ++ d :: rest) = (seps.reverse ++ l, d :: rest, false, false) := by
+  induction hs with
+  | blanks sp hsp =>
+    intro n l d rest hn hd h47
+    cases n with
+    | zero => omega
+    | succ n =>
+      have hds : dropSpaces l (sp ++ d :: rest) = (sp.reverse ++ l, d :: rest) := by
+        rw [dropSpaces_append _ _ _ hsp, dropSpaces_nonspace _ _ _ hd]
+      simp only [skipSeps, hds]
+      split
+      · rename_i heq; cases heq
+      · rename_i heq; simp at heq; exact absurd heq.1 h47
+      · rfl
+  | comment sp body t hsp hb ht ih =>
+    intro n l d rest hn hd h47
+    cases n with
+    | zero => omega
+    | succ n =>
+      have e1 : (sp ++ 47 :: 42 :: (body ++ 42 :: 47 :: t)) ++ d :: rest = sp ++ 47 :: 42 :: (body ++ 42 :: 47 :: (t ++ d :: rest)) := by simp
+      have hds : dropSpaces l (sp ++ 47 :: 42 :: (body ++ 42 :: 47 :: (t ++ d :: rest))) =
+          (sp.reverse ++ l, 47 :: 42 :: (body ++ 42 :: 47 :: (t ++ d :: rest))) := by
+        rw [dropSpaces_append _ _ _ hsp, dropSpaces_nonspace _ _ _ (by decide)]
+      rw [e1]
+      simp only [skipSeps, hds]
+      rw [commentBody_spec body 0 (hb.cons0 0 (by decide)) _ _]
+      have hlen : t.length + 1 ≤ n := by
+        simp only [List.length_append, List.length_cons] at hn
+        omega
+      simp only
+      rw [ih n _ d rest hlen hd h47]
+      simp
+
+/-- the repaired `CheckRemainingInput` after a value: every layout of blanks and comments up to the delimiter is
+    skipped, nothing is reported, the stream rests at the delimiter with its flags clear -/
+theorem cri_seps (cfg : LexCfg) (hcfg : cfg.criSkipsComments = true) (seps : List Byte) (hs : Seps seps)
+    (l rest : List Byte) (d : Byte) (f sk : Bool) (e : Sev) (hd : d = 44 ∨ d = 41) :
+    checkRemainingInput cfg (some attrDelims)
+        { left := l, right := seps ++ d :: rest, eof := false, fail := f, bad := false, skipws := sk } e
+      = (G (seps.reverse ++ l) (d :: rest) sk, e) := by
+  have hdn : isSpace d = false := by rcases hd with rfl | rfl <;> decide
+  have hd47 : d ≠ 47 := by rcases hd with rfl | rfl <;> decide
+  have hdd : isDelim attrDelims d = true := by rcases hd with rfl | rfl <;> decide
+  have hsk := skipSeps_seps seps hs ((seps ++ d :: rest).length + 1) l d rest
+    (by simp only [List.length_append, List.length_cons]; omega) hdn hd47
+  simp only [checkRemainingInput, IStream.clear, Bool.false_eq_true, if_false, sepSkip, hcfg, if_true, hsk]
+  rw [show IStream.peekC { left := seps.reverse ++ l, right := d :: rest, eof := false, fail := false, bad := false, skipws := sk } =
+    (d, G (seps.reverse ++ l) (d :: rest) sk) from peekC_good _ d rest sk]
+  simp [hdd]
+
 end StepModel.P21.RLemmas
